@@ -363,6 +363,13 @@ func (p *cparser) postfix() *CExpr {
 		case "(":
 			p.next()
 			var args []*CExpr
+			if x.Kind == "ident" && (x.Name == "mapsUnchangedOld" || x.Name == "mapsUnchangedPre") {
+				// the argument is a type
+				ty := p.typeText()
+				p.expect(")")
+				x = &CExpr{Kind: "call", X: x, Args: []*CExpr{{Kind: "ident", Name: ty, Pos: t.pos}}, Pos: t.pos}
+				continue
+			}
 			if !p.isOp(")") {
 				for {
 					args = append(args, p.expr())
